@@ -262,6 +262,31 @@ class _Expr(ast.NodeTransformer):
             return ast.fix_missing_locations(ast.copy_location(_table_lookup(table, node.slice, fns), node))
         return node
 
+    def visit_ListComp(self, node):
+        self.generic_visit(node)
+        # [E(t) for t in (a, b, c)] -> [E(a), E(b), E(c)]
+        if len(node.generators) == 1:
+            g = node.generators[0]
+            if not g.ifs and not g.is_async and isinstance(g.target, (ast.Name, ast.Tuple)):
+                items = _literal_items(g.iter)
+                if items is not None and 0 < len(items) <= 8:
+                    elts = []
+                    for it in items:
+                        mapping = {}
+                        if isinstance(g.target, ast.Name):
+                            mapping[g.target.id] = it
+                        elif isinstance(it, (ast.Tuple, ast.List)) and len(it.elts) == len(g.target.elts) and all(isinstance(x, ast.Name) for x in g.target.elts):
+                            mapping = {x.id: v for x, v in zip(g.target.elts, it.elts)}
+                        else:
+                            return node
+                        for nm, v in mapping.items():
+                            uses = sum(1 for x in ast.walk(node.elt) if isinstance(x, ast.Name) and x.id == nm and isinstance(x.ctx, ast.Load))
+                            if not (_is_simple(v) or isinstance(v, ast.Lambda) or (uses <= 1 and _is_pure(v))):
+                                return node
+                        elts.append(self.visit(subst(node.elt, mapping)))
+                    return ast.copy_location(ast.List(elts=elts, ctx=ast.Load()), node)
+        return node
+
     def visit_Compare(self, node):
         self.generic_visit(node)
         # k in TABLE / k not in TABLE: membership in the written-out keys
@@ -637,6 +662,24 @@ def _kw_helpers(cls):
                 # a method that only names the case at hand: if c: return "a" / return "b"
                 out[m.name] = ([a.arg for a in m.args.args[1:]], e, "tags")
     return out
+
+
+def _iterated_later(fn, name):
+    """is the local `name` used as the iterable of a loop / comprehension (directly or through zip / enumerate /
+    reversed) somewhere in the function?"""
+    def mentions(it):
+        if isinstance(it, ast.Name):
+            return it.id == name
+        if isinstance(it, ast.Call) and isinstance(it.func, ast.Name) and it.func.id in ("zip", "enumerate", "reversed", "list", "tuple", "iter"):
+            return any(mentions(a) for a in it.args)
+        return False
+
+    for n in ast.walk(fn):
+        if isinstance(n, ast.For) and mentions(n.iter):
+            return True
+        if isinstance(n, ast.comprehension) and mentions(n.iter):
+            return True
+    return False
 
 
 def _param_lens(cls):
@@ -1136,11 +1179,11 @@ class Desugar:
             res = self.stmt(st, fn, cls, tuples)
             # a record (written-out tuple from a NamedTuple constructor) of computed fields bound to a local:
             # the fields get names of their own, so that loops / comprehensions over the record can be written out
-            if fn is not None and len(res) == 1 and isinstance(res[0], ast.Assign) and len(res[0].targets) == 1 and isinstance(res[0].targets[0], ast.Name) and isinstance(res[0].value, ast.Tuple) and getattr(res[0].value, "_nt", None) and not all(_is_simple(e) for e in res[0].value.elts) and not any(isinstance(e, ast.Starred) for e in res[0].value.elts):
+            if fn is not None and len(res) == 1 and isinstance(res[0], ast.Assign) and len(res[0].targets) == 1 and isinstance(res[0].targets[0], ast.Name) and isinstance(res[0].value, (ast.Tuple, ast.List)) and (getattr(res[0].value, "_nt", None) or _iterated_later(fn, res[0].targets[0].id)) and len(res[0].value.elts) <= 8 and not all(_is_simple(e) or isinstance(e, ast.Lambda) or (isinstance(e, ast.Tuple) and all(_is_simple(x) or isinstance(x, ast.Lambda) for x in e.elts)) for e in res[0].value.elts) and not any(isinstance(e, ast.Starred) for e in res[0].value.elts):
                 a = res[0]
                 pre, names = [], []
                 for k, e in enumerate(a.value.elts):
-                    if _is_simple(e):
+                    if _is_simple(e) or isinstance(e, ast.Lambda):
                         names.append(e)
                     else:
                         nm = "%s__%d" % (a.targets[0].id, k)
@@ -1693,6 +1736,10 @@ class Desugar:
         read = {x.id for v in defs.values() for x in ast.walk(v) if isinstance(x, ast.Name)}
         if (read - {"self", "cls"}) & stored_later:
             return None
+        attrs_read = {x.attr for v in defs.values() for x in ast.walk(v) if isinstance(x, ast.Attribute)}
+        attrs_stored = {x.attr for q in rest for x in ast.walk(q) if isinstance(x, ast.Attribute) and isinstance(x.ctx, (ast.Store, ast.Del))}
+        if attrs_read & attrs_stored:
+            return None
         new_rest = rest
         for name, value in defs.items():
             fake = ast.Assign(targets=[ast.Name(id=name, ctx=ast.Store())], value=value)
@@ -1721,6 +1768,9 @@ class Desugar:
         # the values are references, the keys constants: nothing is evaluated by building the table
         stored_later = _names_stored(rest)
         if any(isinstance(x, ast.Name) and x.id in stored_later for v in table.values for x in ast.walk(v)):
+            return None
+        attrs_stored = {x.attr for q in rest for x in ast.walk(q) if isinstance(x, ast.Attribute) and isinstance(x.ctx, (ast.Store, ast.Del))}
+        if any(isinstance(x, ast.Attribute) and x.attr in attrs_stored for v in table.values for x in ast.walk(v)):
             return None
 
         ex = _Expr(self.opnames, getattr(self, "_consts", {}), getattr(self, "_module_tables", {}), getattr(self, "_class_tables", {}), getattr(self, "_class_fns", ()), getattr(self, "_class_name", None))
